@@ -49,7 +49,7 @@ CHECKS = {
  "C15": ("c15_coa", "exploration",
          "independent-implementation oracle (RFC 5176/2865 request authenticator) over the real CoA listener on loopback UDP in a child process, every datagram followed by an authentic fence probe so that 'no effect' is decided without a clock",
          "For 50 (quick) / 1200 (thorough) signed base requests with distinct secrets: every bit flip of the first 64 octets, every octet substitution beyond, every length-field value, every truncation, re-signing with neighbouring secrets, padding with forged attributes, other codes and malformed attributes; handler invocations, responses (identifier echo, response authenticator, code consistency) and session changes are judged against the oracle; a listener death is confirmed on a fresh process and attributed to the datagram.",
-         "Trusted: the harness's MD5 oracle; loopback FIFO delivery and the listener being sequential (stated in evidence). MD5 collisions and responses sent elsewhere are out of reach.",
+         "Trusted: the harness's MD5 oracle; loopback delivery (responses are attributed by identifier, in any order). MD5 collisions and responses sent elsewhere are out of reach.",
          "DESIGN.md §5 C15"),
  "C19": ("c19_qos", "exploration",
          "exact integer-arithmetic contract monitor over verdict sequences of the natively compiled TC programs (ASan/UBSan, scripted clock) with buckets written by the real qos.Manager into kernel maps of the loaded object; adaptive backlogged sources for the lower bound",
@@ -108,6 +108,31 @@ CHECKS = {
          "DESIGN.md §5 C16"),
 }
 
+
+# Extensions made after the seeding rounds (DESIGN.md §11.8): appended to the level text of each check.
+EXT = {
+ "C01": " Extended: AllocateWithMAC entry point, lease pools advanced by the allocator's own ticker under testing/synctest with the store echoing local writes, fill/mass-expiry/refill scenarios on 500-4000-unit pools, a three-node PeerPool cluster over an in-memory transport (forwarded paths), hostile subscriber identifiers, placements just outside the range, delegation lengths beyond /64, holders re-asking while a store write fails.",
+ "C02": " Extended: DECLINE/RELEASE/REQUEST naming foreign, offered, free and outside addresses, pool-cycling symbols that walk the whole free list, offer-unique clause, pool geometries as a dimension.",
+ "C03": " Extended: every IP identification/TOS value per pool and reply shape (header arithmetic), near-miss circuit-ids from stations without a binding, hardware addresses of 6-16 octets, circuit-ids longer than the key, replacement of the CPE behind a circuit-id (random and scripted).",
+ "C04": " Extended: session-id counter placed at and across its wrap with live low ids in every phase (hook-placed and by real churn), ownership record judged on every PADS.",
+ "C05": " Extended as C01, plus conservation across an owner outage of the PeerPool cluster (listed known finding).",
+ "C06": " Extended: Option 82 at every inspected offset with trailing sub-options, LPM keys for every prefix length, every keyed entry written by the real writer and looked for by the real program (VLAN pair, circuit-id, MAC, ALG trigger), values written by the real dhcp.Server on an ACK.",
+ "C07": " Extended: differential clause 'unbound is other traffic' for antispoof, QoS (incl. installs that failed half-way on a full map) and the DHCP fast path (removed MAC/circuit-id/VLAN entries, near-miss circuit-ids), every DHCP message type with replies allowed only to DISCOVER/REQUEST.",
+ "C08": " Extended: per-phase outage schedules with StopSession at every position, graceful-stop-then-restart as a crash point, the DHCP server's own Start/Stop emission incl. renew/rediscover on a lapsed-unswept lease, mass session end through the rate-limited client.",
+ "C09": " Extended: stateful handler hammer (51 handler-state pairs primed by the legitimate exchange, hostile packets that pass the identifier gates) and a third pass with every pool/table exhausted.",
+ "C10": " Extended: real kernel maps with 'full' and 'read-only' faults at every map write, the log as it is on disk across rotation/retention/restart, every way of configuring public addresses.",
+ "C11": " Extended: identifier classes (current/older/non-Configure/never-used) for every reply type, non-matching-reply-discarded and leaves-opened clauses, request-content shapes (repeated/unknown/maximal option lists) with a differential ack-only-acceptable clause.",
+ "C12": " Extended: AllocateWithMAC path, renew under a store fault, lease-mode pools over /30 units, panics of a restored allocator reported as findings.",
+ "C13": " Extended: layer C (connection lifecycle through a relay: overlapping, half-open, storms, two standbys behind one address), layer D (faults on each HTTP exchange of a connection attempt), layer E (snapshots held against the live stream, FullSyncInterval variants).",
+ "C14": " Extended: stuck-in-pending/failback-pending clauses, quiescence check at the end of every sequence, scripted operator commands at every offset of every timer window.",
+ "C15": " Extended: order-agnostic collection with bounded waits (no assumption that the listener is sequential), overlap workload with held callbacks and bursts.",
+ "C16": " Extended: a fault at every resource-programming step of establishment and at every external step of termination (tiny full / read-only kernel maps, refused RADIUS exchanges, refusing allocators), held-point overlap of every pair of termination paths, phases x sweeps under virtual time, shutdown at every phase and lease age, context-honouring collaborators.",
+ "C17": " Extended: exhaustive Add/Remove(/health) membership histories against a set model, random clusters, owner-outage phase, end-to-end serving agreement with adversarial node names in every configuration order and across health/membership changes.",
+ "C18": "",
+ "C19": " Extended: asymmetric and one-direction-unlimited policies, previous control-plane states (same name redefined, override keeping the name, removed), near-miss policy names, accepted policies when the maps are full (maps of the declared type shrunk), the contract across DHCP renewals while traffic flows.",
+ "C20": " Extended: concurrent callers of the VLAN allocator on the same and on different NTEs.",
+}
+
 REASON_TODO = "check not yet built in this revision of /verif (planned in DESIGN.md §5); nothing is claimed for it"
 
 def main():
@@ -124,7 +149,7 @@ def main():
                 "evidence_file": f"/verif/evidence/{i}.json",
                 "replay_cmd_template": f"./check {i} --replay {{path}}",
                 "engine": f"harness/{pkg}",
-                "level_claimed": {"category": level, "text": text, "design_ref": ref},
+                "level_claimed": {"category": level, "text": text + EXT.get(i, ""), "design_ref": ref},
                 "level_note": note,
                 "technique": tech,
             })
